@@ -36,6 +36,36 @@ def nested_redo_keep_going(viol):
         pr.destroy()
 
 
+def forced_twice_scenario(viol):
+    """Two scripts of one run both force the same target (`redo T`, not redo-ifchange) and T fails while the second one
+    is waiting for T's lock: the failed target is not executed a second time in the same run, both requesters fail, the
+    top-level command exits non-zero — at -j3 and, for comparison, serially."""
+    import time
+    for j in ("-j3", "-j1"):
+        pr = Project()
+        try:
+            pr.write("T.do", "echo ran >>T.runs\n: >T.started\nsleep 1.2\nexit 3\n")
+            pr.write("A.do", "redo T\necho A\n")
+            pr.write("B.do", "while [ ! -e T.started ] && [ ! -e T.runs ]; do sleep 0.05; done\nsleep 0.2\nredo T\necho B\n")
+            pr.write("all.do", "redo-ifchange A B\n")
+            rc, out, err = pr.run(["redo", j, "all"], timeout=60)
+            runs = len((pr.read("T.runs") or b"").split())
+            problems = []
+            if rc == 0:
+                problems.append("exit status 0 although T failed")
+            if j != "-j1" and runs != 1:
+                problems.append("T.do ran %d times in one run" % runs)
+            if pr.read("A") is not None or pr.read("B") is not None:
+                problems.append("a requester of the failed target was built: A %s, B %s" % (pr.read("A") is not None, pr.read("B") is not None))
+            if problems:
+                p = write_replay("C05", "forced-twice", dict(kind="impl-monitor", problems=problems, rc=rc, j=j, stderr=err[-1500:],
+                                                             scenario="redo %s all; all.do: redo-ifchange A B; A.do: redo T; B.do: (wait until T.do runs) redo T; T.do: sleep 1.2; exit 3" % j))
+                viol.append(Violation("C05", p, "a failing target forced by two scripts of one run (%s): " % j + "; ".join(problems)))
+                return
+        finally:
+            pr.destroy()
+
+
 def runloop_level(ctx, viol):
     """The stop / keep-going rule at -j>1 on the real scheduler: generated graphs with failing scripts, built with and
     without -k at -j1..4 (sometimes beside a second invocation, so that the second loop over locked targets runs).
@@ -91,7 +121,9 @@ def run(ctx):
     viol = ctx.setdefault("violations", [])
     if not viol and not ctx.get("replay"):
         nested_redo_keep_going(viol)
-        cov["directed_scenarios"] = 1
+        if not viol:
+            forced_twice_scenario(viol)
+        cov["directed_scenarios"] = 2
     if not viol and not ctx.get("replay"):
         cov.setdefault("distribution", {})["runloop_level"] = runloop_level(ctx, viol)
     return cov
